@@ -1,6 +1,5 @@
 """Properties not claimed, with the reason (entries are ignored once a property is claimed in props.py)."""
-WIP = "check not built yet (work in progress; see DESIGN.md section 8)"
 NA = {
+    # C09 is claimed since the MIR engine bin/mirgen exists (DESIGN 9.8); the entry documents why the Kani route was closed
     "C09": "both stepping functions draw from rand::rng() (OS-seeded thread-local ChaCha: Kani compiler ICE as soon as it is reachable) and par_next needs threads (rayon); neither can be encoded for CBMC",
-    "C11": WIP, "C12": WIP, "C16": WIP, "C19": WIP,
 }
